@@ -173,6 +173,22 @@ CHECKS = {
              'emsg boxes are read by the independent walker and every SCTE-35 section (in-band, in manifests, and round-trip boundary values) '
              'is decoded in TLA+ (splice_insert field offsets, 33-bit fields as limbs, CRC) and compared with the schedule.',
         note='Trusted: TLC, the ISO-BMFF walker, base64 decoding of manifest payloads. Schedules below 2^31; interval > 0.', design='4 C14'),
+    'C18': dict(
+        level='fault_enumeration',
+        technique='TLA+ spec ValidatorFaults.tla: TLC exhaustive session protocol with a one-shot adversary (single fault, reported <=> applied, '
+                  'termination under fairness) that also emits the abstract session grid; every case run as a real DashValidator session through an '
+                  'in-process HTTP adapter that rewrites one response; TLC trace validation of every session (ValidatorFaultsTrace)',
+        text='TLC model-checks the load / validate / sleep / refresh protocol with an adversary that rewrites the nth applicable response of one '
+             'kind, and emits the grid configuration class (live, encrypted, timeline, patch) x 8 fault families x occurrence. The harness '
+             'instantiates each case with a concrete template, option vector, clock and byte/text patcher (26 patchers, harness/faults.py), '
+             'adds pristine sessions over the option vectors the template registry declares, and runs the bundled validator against the real '
+             'application (virtual sleep, inline worker pool). Every fetch / validate / sleep / refresh step is replayed by TLC through the '
+             'model\'s actions: the adversary schedule and the protocol order must agree, and C18_Terminates, C18_NoFalsePositive, C18_Detects '
+             'and C18_Located are evaluated on the observed outcome.',
+        note='Trusted: TLC, the patchers (own walker / regular expressions), the weakest reading of "located" (line range of the owning '
+             'AdaptationSet / the element or its parent, or URL / file name, or box / attribute name in the message). Not covered: multi-period '
+             'streams, validator options other than duration/encrypted, the save-to-disk paths, faults outside the 8 listed families.',
+        design='4 C18'),
     'C20': dict(
         technique='TLA+ spec BufferedReader.tla: TLC exhaustive refinement check (implementation-shaped cache model vs '
                   'in-memory stream) + every model edge replayed on the real class + TLC trace validation of recorded calls',
@@ -222,7 +238,7 @@ def main():
                       'PYTHONPATH additionally carries /verif/shims for four absent third-party modules',
             'baseline_off_cmd': 'cd /repo && env -u DASHLIVE_VERIF_TRACE /venv/bin/python -m pytest -ra -q -p no:cacheprovider '
                                 '--timeout=900 --continue-on-collection-errors',
-            'source_commits': [],
+            'source_commits': ['56fa05b3ed3704f8bf808239e0f55733a2e31ee9'],
             'add_only': True,
         },
         'engines': [
